@@ -62,11 +62,10 @@ def want (p : SessParams) (r : RouteReq) (c : Nat) : Option AttrVal :=
 
 /-- Equal values; communities of the three kinds are sets. -/
 def SameVal (a b : AttrVal) : Prop :=
-  match a, b with
-  | .communities x, .communities y => ∀ c, c ∈ x ↔ c ∈ y
-  | .extCommunities x, .extCommunities y => ∀ c, c ∈ x ↔ c ∈ y
-  | .largeCommunities x, .largeCommunities y => ∀ c, c ∈ x ↔ c ∈ y
-  | _, _ => a = b
+  a = b ∨
+  (∃ x y, a = .communities x ∧ b = .communities y ∧ ∀ c, c ∈ x ↔ c ∈ y) ∨
+  (∃ x y, a = .extCommunities x ∧ b = .extCommunities y ∧ ∀ c, c ∈ x ↔ c ∈ y) ∨
+  (∃ x y, a = .largeCommunities x ∧ b = .largeCommunities y ∧ ∀ c, c ∈ x ↔ c ∈ y)
 
 def SameOpt (a b : Option AttrVal) : Prop :=
   match a, b with
